@@ -51,6 +51,21 @@ def acc(ctx, m):
             sw = (i, sd)
             break
     if sw is None:
+        # the match may live in a helper of the deserialiser (`self.narrow_integer::<T>()?`): look one level down
+        for bb, t in B.calls():
+            for n in callee_names(t):
+                if n.startswith('erltf_serde::de::') and n in ctx.F.bodies and n != path:
+                    HB = P.B(n)
+                    for i in sorted(HB.live_blocks()):
+                        sd = HB.switch_on_discr(i)
+                        if sd and sd[1] == OWNED:
+                            B, sw = HB, (i, sd)
+                            break
+                if sw:
+                    break
+            if sw:
+                break
+    if sw is None:
         return None
     i, (pl, ty, cases, els) = sw
     vs = [v['n'] for v in ctx.F.adts[OWNED]['variants']]
@@ -65,7 +80,7 @@ def acc(ctx, m):
             t = B.blocks[bb]['t']
             if t['k'] == 'call':
                 for n in callee_names(t):
-                    if 'serde_core::de::Visitor' in n or n.endswith('::and_then') or 'visit_' in n.rsplit('::', 1)[-1]:
+                    if 'serde_core::de::Visitor' in n or n.endswith('::and_then') or 'visit_' in n.rsplit('::', 1)[-1] or n.endswith('::try_from') or 'bigint_to_' in n:
                         accepts = True
         if accepts:
             out.add(vs[v])
@@ -102,6 +117,7 @@ def run(ctx):
     # integer thresholds of the encoder, established by the interval analysis on encode_integer
     EB = ctx.body(ENC + 'encode_integer')
     int_tags = {'small': set(), 'big': set()}
+    rng98 = None
     if EB is not None:
         R = Ranges(EB)
         for bb, t in EB.calls():
@@ -110,14 +126,19 @@ def run(ctx):
             if p and p[0] == 'w' and p[1] == 'u8' and t['args'][1]['k'] == 'c' and 'v' in t['args'][1]:
                 tag = t['args'][1]['v']
                 rng = R.range_of({'k': 'cp', 'pl': {'l': 2}}, bb)
+                if tag == 98:
+                    rng98 = rng
                 if tag in (97, 98) and rng[0] >= I32[0] and rng[1] <= I32[1]:
                     int_tags['small'].add(tag)
                 elif tag in (110, 111):
                     int_tags['big'].add(tag)
         ctx.rule('C15.2-integer-widths', 'the encoder writes SMALL_INTEGER_EXT / INTEGER_EXT only for values the interval analysis shows to lie within the i32 range, and has a big-integer form for the rest: '
                  'this is what makes "wide integers come back as big integers" (and nothing else) the wire image of i64/u64/u32 fields', floor=1)
-        if int_tags['small'] == {97, 98} and int_tags['big'] >= {110}:
-            ctx.ok('C15.2-integer-widths', 'encode_integer', 'tags 97/98 written only with the value within [-2^31, 2^31-1]; 110 (and 111) otherwise', ctx.where(EB))
+        if int_tags['small'] == {97, 98} and int_tags['big'] >= {110} and rng98 is not None and (rng98[0] > I32[0] or rng98[1] < I32[1]):
+            ctx.bad('C15.2-integer-widths', 'encode_integer', 'INTEGER_EXT is written only for values in [%s, %s], not for the whole i32 range: the missing values (e.g. i32::MIN) go out as big integers and come back as BigInt, '
+                    'which the 32-bit readers (deserialize_i32, as_integer-based from_term of the wrappers) do not accept' % rng98, ctx.where(EB), key='CAST:%sencode_integer:i32-range-incomplete' % ENC)
+        elif int_tags['small'] == {97, 98} and int_tags['big'] >= {110}:
+            ctx.ok('C15.2-integer-widths', 'encode_integer', 'tags 97/98 written only with the value within [-2^31, 2^31-1] (INTEGER_EXT for exactly that range); 110 (and 111) otherwise', ctx.where(EB))
         else:
             ctx.bad('C15.2-integer-widths', 'encode_integer', 'the small integer tags are not confined to the i32 range (tags shown to be in range: %s, big forms: %s): a value just outside it is written with a 32-bit form and comes back altered'
                     % (sorted(int_tags['small']), sorted(int_tags['big'])), ctx.where(EB), key='CAST:%sencode_integer:small-tags-outside-i32' % ENC)
@@ -275,3 +296,30 @@ def run(ctx):
              'must never compare Equal; the comparator rules of C11/C12 re-run here', floor=60)
     from ..order import map_key_order_rules
     map_key_order_rules(ctx, 'C15.3-map-key-order', which=('owned',))
+
+    # ---------------- the derive macro: both generated impls name the fields alike -------------------------------------------
+    ctx.rule('C15.7-derive-keys', '#[derive(ElixirStruct)] generates the Serialize and the Deserialize impl from the same list of field-name strings: neither generator rewrites the names '
+             '(strip_prefix, trim, replace, case changes) unless the other does the same', floor=1)
+    from ..families import bodies_of_fn as _bof
+    gens = {}
+    for g_ in ('generate_serialize_impl', 'generate_deserialize_impl'):
+        bs_ = _bof(P, 'erltf_serde_derive::' + g_)
+        if not bs_:
+            continue
+        ops = set()
+        for GB in bs_:
+            for bb, t in GB.calls():
+                n_ = callee_of(t)[0] or ''
+                if (n_.startswith('core::str::') or n_.startswith('alloc::str::') or n_.startswith('alloc::string::String::')) and \
+                        n_.rsplit('::', 1)[-1] not in ('to_string', 'clone', 'as_str', 'len', 'is_empty', 'to_owned', 'as_ref', 'from', 'new', 'push_str', 'as_bytes'):
+                    ops.add(n_.rsplit('::', 1)[-1])
+        gens[g_] = ops
+    if len(gens) == 2:
+        a_, b_ = gens['generate_serialize_impl'], gens['generate_deserialize_impl']
+        if a_ == b_:
+            ctx.ok('C15.7-derive-keys', 'ElixirStruct', 'neither generator transforms the field names%s' % ('' if not a_ else ' differently (both apply %s)' % sorted(a_)))
+        else:
+            ctx.bad('C15.7-derive-keys', 'ElixirStruct', 'the Serialize generator applies %s to the field names, the Deserialize generator %s: for some field names (raw identifiers such as r#type) the key written is not the key looked up, '
+                    'and the derived type cannot be read back' % (sorted(a_) or 'nothing', sorted(b_) or 'nothing'), key='TWIN:erltf_serde_derive:field-name-transforms')
+    else:
+        ctx.info_note('derive macro generators not found (crate erltf_serde_derive not part of this build)')
